@@ -115,7 +115,7 @@ def roundFloats (r : ShapeRec) (nd : Int) : Except PyErr ShapeRec := do
   if r.tag == "path" then
     let d ← SvgPath.roundFloats nd (r.getS "d")
     pure (r'.set "d" (.s d))
-  else pure r'
+  else pure r'.postInit      -- `__post_init__` again: a rect's radii stay within half its rounded sides
 
 /-- `normalize_opacity` -/
 def normalizeOpacity (r : ShapeRec) : ShapeRec :=
